@@ -378,7 +378,10 @@ impl Session {
                     buffer_before_decode,
                     buffer.len()
                 );
-                self.handle_frame(frame).await?;
+                if let Err(e) = self.handle_frame(frame).await {
+                    let _ = self.close().await;
+                    return Err(e);
+                }
             }
             if frame_count == 0 && n > 0 {
                 tracing::debug!(
@@ -706,9 +709,9 @@ impl Session {
                     "Unknown alert".to_string()
                 };
                 tracing::error!("[Session] Received Alert frame (fatal): {}", alert_msg);
-                // Close all streams
-                let mut streams = self.streams.write().await;
-                for (stream_id, stream) in streams.drain() {
+                // Record the alert as the close reason of every open stream
+                let streams = self.streams.read().await;
+                for (stream_id, stream) in streams.iter() {
                     let error = AnyTlsError::Protocol(format!(
                         "Session closed due to alert: {}",
                         alert_msg
@@ -717,9 +720,9 @@ impl Session {
                     tracing::debug!("[Session] Closed stream {} due to alert", stream_id);
                 }
                 drop(streams);
-                // Mark session as closed
-                self.is_closed
-                    .store(true, std::sync::atomic::Ordering::Relaxed);
+                // Tear the session down through close(): resolves pending opens, drops the
+                // inbound queues, wakes the forwarding task and shuts the transport down
+                let _ = self.close().await;
                 return Err(AnyTlsError::Protocol(format!("Alert: {}", alert_msg)));
             }
             Command::HeartRequest => {
